@@ -109,6 +109,11 @@ Fixpoint expr_of_sx (fuel : nat) (x : sx) : option expr :=
         | [o; d; a] => match str_of_sx o, str_of_sx d, expr_of_sx n a with
                        | Some o', Some d', Some a' => Some (EAdv o' d' a') | _, _, _ => None end
         | _ => None end else
+      if is_tag "mc" t then
+        match rest with
+        | [o; a] => match str_of_sx o, expr_of_sx n a with
+                    | Some o', Some a' => Some (EMonadCond o' a') | _, _ => None end
+        | _ => None end else
       if is_tag "other" t then Some EOther else None
   | _ => None
   end end.
